@@ -1,0 +1,42 @@
+// Copyright (c) The Thanos Community Authors.
+// Licensed under the Apache License 2.0.
+
+//go:build verif
+
+package verifhook
+
+// Enabled reports whether the simulator hooks are compiled in.
+const Enabled = true
+
+// The simulator installs these before any engine code runs.
+var (
+	GoFn     func(site string, idx int) func()
+	YieldFn  func(site string)
+	NoParkFn func() func()
+)
+
+func nop() {}
+
+// Go is deferred as the first statement of a goroutine body: defer verifhook.Go(site, idx)().
+// The returned function runs last of the goroutine's deferred calls.
+func Go(site string, idx int) func() {
+	if f := GoFn; f != nil {
+		return f(site, idx)
+	}
+	return nop
+}
+
+// Yield marks a point at which a simulator may deschedule the calling goroutine.
+func Yield(site string) {
+	if f := YieldFn; f != nil {
+		f(site)
+	}
+}
+
+// NoPark opens a region in which Yield does not deschedule: defer verifhook.NoPark()().
+func NoPark() func() {
+	if f := NoParkFn; f != nil {
+		return f()
+	}
+	return nop
+}
